@@ -234,6 +234,10 @@ type c10World struct {
 // block-listed.
 var c10Probe bool
 
+// c10Discarded counts histories dropped because a step took about as long as
+// the probe timeout (timing, not judged).
+var c10Discarded int
+
 // c10Lo is the set of addresses added to the loopback interface.
 var c10Lo = map[uint32]bool{}
 
@@ -276,7 +280,7 @@ func c10NetnsSetup() bool {
 	t0 := time.Now()
 	free := probe.addrAvailable(c10IP(ip))
 	loop := !probe.addrAvailable(c10IP(uint32(127)<<24 | 9))
-	return busy && free && loop && time.Since(t0) < time.Second
+	return busy && free && loop && time.Since(t0) < 3*time.Second
 }
 
 // c10ICMPTimeout (ms) is generous: an answering address answers within
@@ -1059,7 +1063,16 @@ func c10Run(t *testing.T, out *vfOut, h c10History) {
 		diskBefore, _, _ := w.diskTable()
 
 		now := w.now()
+		tApply := time.Now()
 		r, pan := w.apply(o)
+		if w.icmp && time.Since(tApply) > c10ICMPTimeout*time.Millisecond*4/5 {
+			// A probe may have waited for its whole timeout (an answering address
+			// answers within microseconds, a free one fails at once): the machine
+			// stalled, the probe answers of this step are not what busyList says.
+			// The history is dropped, not judged.
+			c10Discarded++
+			return
+		}
 		if o.Kind == c10Tick || o.Kind == c10Busy {
 			now = w.now()
 		}
@@ -1593,6 +1606,7 @@ func TestVerifC10(t *testing.T) {
 	out := vfOpen(t, "C10")
 	defer out.Close()
 	out.Note("icmp_probe", c10Probe)
+	defer func() { out.Note("discarded_for_timing", c10Discarded) }()
 	rnd := vfNewRand(out.Seed)
 
 	c10ConfCases(out, rnd.Fork(4242), out.Scale(150, 3000))
